@@ -31,7 +31,9 @@ def sse (l : List Rat) : Rat := sum (l.map fun x => x * x)
 def meanSq (l : List Rat) : Rat := sse l / l.length
 
 /-- `np.std(error)²`: population variance, `mean(|x − mean(x)|²)` -/
-def var (l : List Rat) : Rat := meanSq (l.map fun x => x - mean l)
+def var (l : List Rat) : Rat :=
+  let m := mean l
+  meanSq (l.map fun x => x - m)
 
 def minFrom (m : Rat) : List Rat → Rat
   | [] => m
